@@ -38,10 +38,13 @@ def replace_escape_table_rule(ctx: Ctx) -> None:
     (truth table over the three `hasattr(x, '__html__')` probes); shared with C16: otherwise an
     already escaped fragment is spliced into a plain string and escaped a second time."""
     rp = ctx.repo.func("filters:do_replace")
-    ifs = [i_ for i_ in ast.walk(rp.node) if isinstance(i_, ast.If) and any(ast.unparse(a_) == "s = escape(s)" for a_ in i_.body)]
+    ifs = [i_ for i_ in ast.walk(rp.node) if isinstance(i_, ast.If) and any(ast.unparse(a_) == "s = escape(s)" for a_ in i_.body + i_.orelse)]
     ctx.need(len(ifs) == 1, "do_replace: the branch escaping the subject was not found")
     atoms_ = ["hasattr(old, '__html__')", "hasattr(new, '__html__')", "hasattr(s, '__html__')"]
     tab = astq.bool_table(ifs[0].test, atoms_)
+    if any(ast.unparse(a_) == "s = escape(s)" for a_ in ifs[0].orelse):
+        # (the escaping arm is the else branch: the decision is the negated test)
+        tab = {k_: (None if v_ is None else not v_) for k_, v_ in tab.items()}
     bad = [v for v, r_ in tab.items() if (v[0] or v[1]) and not v[2] and r_ is not True]
     ctx.check(not bad, "replace:escape-table", "filters:do_replace", f"plain subject not escaped for (old, new, s) markup = {bad}" if bad else "escapes whenever an argument is markup",
               f"do_replace does not escape the plain subject for (old is markup, new is markup, s is markup) = {bad}: `{{{{ text|replace('NAME', macro_result) }}}}` splices the escaped fragment into a plain string, and the output escapes it again (&amp;lt;)",
@@ -77,8 +80,11 @@ def check(ctx: Ctx) -> str:
     s = ast.unparse(tj.node)
     deleg = [r_.value for r_ in astq.returns(tj.node) if isinstance(r_.value, ast.Call) and astq.callee(r_.value) == "htmlsafe_json_dumps"]
     deleg_ok = False
-    if len(deleg) == 1 and [ast.unparse(a_) for a_ in deleg[0].args] == ["value"]:
-        kwd = {k_.arg: k_.value for k_ in deleg[0].keywords}
+    deleg_all = bool(deleg)
+    for dg in deleg:
+      deleg_ok = False
+      if [ast.unparse(a_) for a_ in dg.args] == ["value"]:
+        kwd = {k_.arg: k_.value for k_ in dg.keywords}
         dv = kwd.get("dumps")
         if isinstance(dv, ast.Name):
             d_src = [a_ for a_ in ast.walk(tj.node) if isinstance(a_, ast.Assign) and len(a_.targets) == 1 and isinstance(a_.targets[0], ast.Name) and a_.targets[0].id == dv.id]
@@ -86,7 +92,8 @@ def check(ctx: Ctx) -> str:
             kwv = kwd.get(None)
             k_src = [a_ for a_ in ast.walk(tj.node) if isinstance(a_, ast.Assign) and len(a_.targets) == 1 and isinstance(a_.targets[0], ast.Name) and isinstance(kwv, ast.Name) and a_.targets[0].id == kwv.id]
             deleg_ok = len(d_src) == 1 and ast.unparse(d_src[0].value) == "policies['json.dumps_function']" and bool(k_src) and any("policies['json.dumps_kwargs']" in ast.unparse(a_.value) for a_ in k_src)
-    ctx.check(deleg_ok and "policies['json.dumps_kwargs']" in s, "tojson:filter", "filters:do_tojson", "delegation", "the tojson filter must serialise through htmlsafe_json_dumps with the policy's dumps function and kwargs", tj.loc())
+      deleg_all = deleg_all and deleg_ok
+    ctx.check(deleg_all and "policies['json.dumps_kwargs']" in s, "tojson:filter", "filters:do_tojson", "delegation", "the tojson filter must serialise through htmlsafe_json_dumps with the policy's dumps function and kwargs", tj.loc())
 
     ctx.rule("R3", "xmlattr: every emitted key passed the key check, key and value are escaped, the key pattern contains ASCII whitespace, '/', '>' and '='; None / undefined values are skipped")
     xa = repo.func("filters:do_xmlattr")
